@@ -7,6 +7,8 @@ import LfsModel.Pointer
 import LfsModel.FilterModel
 import LfsModel.Sha256
 import LfsModel.Creds
+import LfsModel.Config
+import LfsModel.Gen
 open Lfs
 
 namespace Oracle
@@ -115,11 +117,33 @@ def c17 : List String → String
         String.intercalate "," (sortStr (ls.map hex))
   | _ => "bad-op"
 
+def parseSource (s : String) : Option Cfg.Source :=
+  match s.splitOn ":" with
+  | [f, ls] => do
+    let lines ← if ls == "-" then some [] else (ls.splitOn ",").mapM unhex
+    pure { lines := lines, onlySafe := f == "1" }
+  | _ => none
+
+/-- per-key value lists in key order (the Go side sorts map keys), values in insertion order -/
+def canonVals (vals : List (Bytes × Bytes)) : List String :=
+  let keys := sortStr ((vals.map fun kv => hex kv.1).eraseDups)
+  keys.flatMap fun k => (vals.filter fun kv => hex kv.1 == k).map fun kv => s!"{k}={hex kv.2}"
+
+def c11 : List String → String
+  | ["read", srcs] =>
+    match (srcs.splitOn ";").mapM parseSource with
+    | none => "bad-op"
+    | some ss =>
+      let st := Cfg.readGitConfig Gen.safeKeys ss
+      s!"vals=[{String.intercalate "," (canonVals st.vals)}] exts=[{String.intercalate "," (sortStr (st.exts.map hex))}] remotes=[{String.intercalate "," (sortStr (st.remotes.map hex))}]"
+  | _ => "bad-op"
+
 def answer (line : String) : String :=
   match line.splitOn " " with
   | "C07" :: rest => c07 rest
   | "FLT" :: rest => flt rest
   | "C17" :: rest => c17 rest
+  | "C11" :: rest => c11 rest
   | _ => "bad-op"
 
 partial def loop (h : IO.FS.Stream) (out : IO.FS.Stream) : IO Unit := do
